@@ -6,6 +6,8 @@ pub mod tsutil;
 
 pub mod c02;
 pub mod c03;
+pub mod c05;
+pub mod rules;
 pub mod c10;
 pub mod pat;
 pub mod c19;
